@@ -1,5 +1,6 @@
 import DivanModel.Driver.Util
 import DivanModel.Model.RoundLoop
+import DivanModel.Model.Recording
 import DivanModel.Model.SampleLoop
 import DivanModel.Model.SoftFloat
 import DivanModel.Model.Stats
@@ -41,6 +42,9 @@ structure Req where
   skewGen : Nat := 0
   skewCall : Nat := 0
   lazy : Nat := 0              -- if non-zero: only the first `lazy` calls of a thread allocate
+  cia : Option Nat := none     -- `count_inputs_as::<C>()`: integer inputs counted by conversion as kind 0..3 (bytes, chars, cycles, items)
+  ic2 : Bool := false          -- a second input counter (bytes) next to the items counter
+  zre : Bool := false          -- every call reallocates a block to its own size: one grow of 0 bytes
   bar : Bool := false           -- barrier waits are part of the traces (instrumented Barrier)
   deriving Repr, Inhabited
 
@@ -63,7 +67,8 @@ def parseReq (args : List String) : Option Req := do
       | "maxt" => r := { r with maxt := ← optNat v }
       | "mint" => r := { r with mint := ← optNat v }
       | "sk" => r := { r with sk := (← optNat v).map (· = 1) }
-      | "ic" => r := { r with ic := v = "1" }
+      | "ic" => r := { r with ic := v ≠ "0", ic2 := v = "2",
+                               cia := match v.toNat? with | some n => if n ≥ 3 then some (n - 3) else none | none => none }
       | "items" => r := { r with items := ← optNat v }
       | "cost" =>
         match (v.splitOn ",").mapM String.toNat? with
@@ -76,6 +81,7 @@ def parseReq (args : List String) : Option Req := do
       | "cold" => r := { r with cold := v = "1" }
       | "bar" => r := { r with bar := v = "1" }
       | "lazy" => r := { r with lazy := ← v.toNat? }
+      | "zre" => r := { r with zre := v = "1" }
       | "gpanic" =>
         if v = "-" then pure () else
         match (v.splitOn ":").mapM String.toNat? with
@@ -128,6 +134,7 @@ structure Rec where
   dur : Nat
   alloc : Alloc
   itemsPerIter : Nat
+  bytesPerIter : Nat := 0
   deriving Repr, Inhabited, DecidableEq
 
 structure Sim where
@@ -148,6 +155,7 @@ structure SmpSt where
   stop : Nat := 0
   al : Alloc := {}
   total : Nat := 0
+  totalB : Nat := 0
   dead : Bool := false         -- this thread's benchmarked function panicked: it only keeps its barrier appointments
   waits : Nat := 0             -- barrier appointments kept so far in this sample
 
@@ -162,9 +170,11 @@ def interp (r : Req) (t : Nat) (x : SmpSt) : SampleLoop.Ev → SmpSt
       else
       { x with sim := (sim.ev t s!"g{id}").adv t (r.cGen + t * r.skewGen), ids := x.ids.push (if r.shape.iZst then 0 else id) }
     else { x with ids := x.ids.push 0 }
-  | .count _ i =>
+  | .count k i =>
     let shown := x.ids[i]!
-    { x with sim := x.sim.ev t s!"c{shown}", total := x.total + (3 + shown % 5) }
+    if r.cia.isSome then { x with total := x.total + shown }
+    else if k = 0 then { x with sim := x.sim.ev t s!"b{shown}", totalB := x.totalB + (7 + shown % 3) }
+    else { x with sim := x.sim.ev t s!"c{shown}", total := x.total + (3 + shown % 5) }
   | .tsStart =>
     let sim := x.sim.adv t r.cRead
     { x with sim := sim.ev t s!"s{sim.clocks[t]!}", start := sim.clocks[t]! }
@@ -175,7 +185,7 @@ def interp (r : Req) (t : Nat) (x : SmpSt) : SampleLoop.Ev → SmpSt
     if r.panic = some (t, j) then { x with sim := { sim with panicked := true }, dead := true } else
     let sz := max (r.aSize + j) 1
     let al := x.al
-    let al := if r.aCall > 0 ∧ (r.lazy = 0 ∨ j < r.lazy) then
+    let al := if r.zre then { x.al with growC := x.al.growC + 1 } else if r.aCall > 0 ∧ (r.lazy = 0 ∨ j < r.lazy) then
         { al with allocC := al.allocC + r.aCall, allocS := al.allocS + r.aCall * sz,
                   growC := al.growC + r.aCall, growS := al.growS + r.aCall * sz,
                   deallocC := al.deallocC + r.aCall, deallocS := al.deallocS + r.aCall * 2 * sz,
@@ -198,15 +208,15 @@ def interp (r : Req) (t : Nat) (x : SmpSt) : SampleLoop.Ev → SmpSt
 
 /-- one sample on thread `t` with `size` iterations: the events of `SampleLoop.trace`, replayed until
     the end or until the benchmarked function panics; returns start, end, tallies, Σ input counts -/
-def sample (r : Req) (t size : Nat) (s : Sim) : Sim × Nat × Nat × Alloc × Nat :=
+def sample (r : Req) (t size : Nat) (s : Sim) : Sim × Nat × Nat × Alloc × Nat × Nat :=
   let evs := SampleLoop.trace r.shape (if r.byRef then .refs else .values)
-    (if r.ic ∧ r.hasInputs then [3] else []) size
+    (if r.ic ∧ r.hasInputs then (if r.ic2 then [0, 3] else [3]) else []) size
   let x := evs.foldl (fun x e => if x.dead then x else interp r t x e) { sim := s }
   -- an unwinding thread keeps its remaining appointments (three per sample) so that nobody hangs
   let x : SmpSt := if x.dead && r.bar && decide (r.threads > 1) then
       (List.range (3 - x.waits)).foldl (fun x _ => { x with sim := (x.sim.ev t "W").ev t "w" }) x
     else x
-  (x.sim, x.start, x.stop, x.al, x.total)
+  (x.sim, x.start, x.stop, x.al, x.total, x.totalB)
 
 structure Out where
   sim : Sim
@@ -222,8 +232,12 @@ def loop (r : Req) : Out := Id.run do
   let mut sim : Sim := { clocks := Array.replicate 64 0, nextId := Array.replicate 64 0,
                          nextCall := Array.replicate 64 0, traces := Array.replicate 64 [] }
   let mut st := initSt r.isTest o
-  let mut recs : List Rec := []
-  if o.maxPicos = 0 || !hasSamples o then return ⟨sim, st, recs, 0⟩
+  -- the recorded samples live in the three stores of `Model/Recording` (durations, index -> allocation
+  -- information, one count list per input-counting kind: bytes, items); the allocation payload is an
+  -- index into `table`
+  let mut coll : Recording.Coll := Recording.empty 2
+  let mut table : Array Alloc := #[]
+  if o.maxPicos = 0 || !hasSamples o then return ⟨sim, st, [], 0⟩
   -- `timer_precision`: only measured (here: known) when the run starts in tuning mode
   let prec := match st.mode with | .tune _ => r.prec | _ => 0
   -- first benchmark of a process: `bench_overheads()` calibrates now, before the time budget starts
@@ -246,19 +260,28 @@ def loop (r : Req) : Out := Id.run do
     let size := st.mode.size
     let mut durs : List Nat := []
     let mut lastEnd := 0
-    let mut new : List Rec := []
+    let mut new : List Recording.Raw := []
     for t in [0:n] do
-      let (s', a, b, al, tot) := sample r t size sim
+      let (s', a, b, al, tot, totB) := sample r t size sim
       sim := s'
       let d := b - a
       durs := durs ++ [d]
       lastEnd := max lastEnd b
-      new := new ++ [⟨clampTo prec d, al, if size = 0 then 0 else tot / size⟩]
+      new := new ++ [⟨clampTo prec d, if al.isEmpty then none else some table.size,
+                      [if size = 0 then 0 else totB / size, if size = 0 then 0 else tot / size]⟩]
+      table := table.push al
     if sim.panicked then break
     let wasTune := match st.mode with | .tune _ => true | _ => false
     st := stepRound o T prec st ⟨durs, lastEnd - initial⟩
-    recs := if wasTune then new else recs ++ new
+    -- a tuning round starts from a cleared collection (`samples.clear()`, `clear_input_counts()`)
+    coll := Recording.recordRound (if wasTune then Recording.clear coll else coll) new
     rounds := rounds + 1
+  -- what `compute_stats` finds for the sample at index j: read back through the index
+  let recs : List Rec := (List.range coll.times.length).map fun j =>
+    { dur := coll.times.getD j 0
+      alloc := ((Recording.allocOf coll j).map fun i => table.getD i {}).getD {}
+      itemsPerIter := (Recording.countOf coll 1 j).getD 0
+      bytesPerIter := (Recording.countOf coll 0 j).getD 0 }
   return ⟨sim, st, recs, rounds⟩
 
 def showTraces (sim : Sim) : String :=
@@ -283,7 +306,7 @@ def allocGetters : List (Alloc → Nat) :=
 open SoftFloat in
 /-- figures under "fastest" (or, with the last sample, "slowest"): one per allocation column, then the counter -/
 def edgeKey (s : Nat) (x : Rec) : List String :=
-  (allocGetters.map fun g => toString (div (ofNat (g x.alloc)) (ofNat s))) ++ [toString x.itemsPerIter]
+  (allocGetters.map fun g => toString (div (ofNat (g x.alloc)) (ofNat s))) ++ [toString x.bytesPerIter, toString x.itemsPerIter]
 
 open SoftFloat in
 /-- figures under "median" -/
@@ -293,7 +316,8 @@ def midKey (s : Nat) (mid : List Rec) : List String :=
     let a := g ((mid.getD 0 default).alloc)
     let b := if mid.length > 1 then g ((mid.getD 1 default).alloc) else 0
     toString (div (div (add (ofNat a) (ofNat b)) fmc) (ofNat s))) ++
-  [toString (((mid.map (·.itemsPerIter)).foldl (· + ·) 0) / max mid.length 1)]
+  [toString (((mid.map (·.bytesPerIter)).foldl (· + ·) 0) / max mid.length 1),
+   toString (((mid.map (·.itemsPerIter)).foldl (· + ·) 0) / max mid.length 1)]
 
 /-- the figure groups of a statistics line after `D1 n.. t..`: each `[fastest, slowest, median, mean]` -/
 def statGroups (stats : String) : List (List String) :=
@@ -313,10 +337,11 @@ def choosePicks (r : Req) (s : Nat) (recs : List Rec) (impl : String) : Picks :=
   let dflt : Picks := ⟨sorted.headD default, sorted.getLastD default, sliceMiddle sorted⟩
   let gsI := statGroups impl
   -- the implementation's figures, aligned with `edgeKey` / `midKey` (counter last, if present)
-  let useC : Bool := r.ic ∧ r.hasInputs
-  let trim (k : List String) : List String := if useC then k else k.take 10
-  let col (i : Nat) : List String := (gsI.take (if useC then 11 else 10)).map fun g => g.getD i ""
-  if gsI.length < (if useC then 11 else 10) then dflt else
+  -- per-input counter columns after the ten allocation columns: bytes (only with two counters), items
+  let nC : Nat := if r.ic ∧ r.hasInputs then (if r.ic2 then 2 else 1) else 0
+  let trim (k : List String) : List String := k.take 10 ++ (if nC = 2 then k.drop 10 else if nC = 1 then k.drop 11 else [])
+  let col (i : Nat) : List String := (gsI.take (10 + nC)).map fun g => g.getD i ""
+  if gsI.length < 10 + nC then dflt else
   let cls (d : Nat) : List Rec := distinctRecs (recs.filter (·.dur = d))
   let first := ((cls dflt.first.dur).find? fun x => trim (edgeKey s x) = col 0).getD dflt.first
   let last := ((cls dflt.last.dur).find? fun x => trim (edgeKey s x) = col 1).getD dflt.last
@@ -374,10 +399,11 @@ def showStats (r : Req) (s : Nat) (recs : List Rec) (impl : String := "") : Stri
     s!"a2:{stat (·.allocC)}/{stat (·.allocS)}", s!"a3:{stat (·.deallocC)}/{stat (·.deallocS)}"]
   let counts : List String :=
     if r.ic ∧ r.hasInputs then
-      let c (x : Rec) := x.itemsPerIter
-      let med := ((mid.map c).foldl (· + ·) 0) / mid.length
-      let mean := ((recs.map c).foldl (· + ·) 0) / n
-      [s!"c3:{c first},{c last},{med},{mean}"]
+      let row (lbl : String) (c : Rec → Nat) : String :=
+        let med := ((mid.map c).foldl (· + ·) 0) / mid.length
+        let mean := ((recs.map c).foldl (· + ·) 0) / n
+        s!"{lbl}:{c first},{c last},{med},{mean}"
+      (if r.ic2 then [row "c0" (·.bytesPerIter)] else []) ++ [row s!"c{r.cia.getD 3}" (·.itemsPerIter)]
     else match r.items with
       | some v => [s!"c3:{v},{v},{v},{v}"]
       | none => []
@@ -402,7 +428,7 @@ def samplesOf (evs : List Ev) : List (List Ev) :=
   let rec go (cur : List Ev) (seenEnd postW : Bool) (acc : List (List Ev)) : List Ev → List (List Ev)
     | [] => if cur.isEmpty then acc.reverse else (cur.reverse :: acc).reverse
     | e :: rest =>
-      let startsNew := seenEnd ∧ (e.k = 'g' ∨ e.k = 'c' ∨ e.k = 's' ∨ (e.k = 'W' ∧ postW))
+      let startsNew := seenEnd ∧ (e.k = 'g' ∨ e.k = 'c' ∨ e.k = 'b' ∨ e.k = 's' ∨ (e.k = 'W' ∧ postW))
       if startsNew then go [e] false false (cur.reverse :: acc) rest
       else go (e :: cur) (seenEnd ∨ e.k = 'e') (postW ∨ (seenEnd ∧ e.k = 'W')) acc rest
   go [] false false [] evs
@@ -434,13 +460,14 @@ def sampleOk (r : Req) (complete : Bool) (smp0 : List Ev) : List String :=
   let gens := pre.filter (·.k = 'g')
   let calls := timed.filter (·.k = 'k')
   let idsIn := if sh.iZst then [] else gens.map (·.v)
-  (if pre.any (fun e => e.k ≠ 'g' ∧ e.k ≠ 'c') then ["[C01][C02] something other than generation/counting happened before the start timestamp"] else []) ++
+  (if pre.any (fun e => e.k ≠ 'g' ∧ e.k ≠ 'c' ∧ e.k ≠ 'b') then ["[C01][C02] something other than generation/counting happened before the start timestamp"] else []) ++
   (if timed.any (·.k ≠ 'k') then ["[C02] something other than benchmarked calls happened inside the timed section"] else []) ++
   (if post.any (fun e => e.k ≠ 'o' ∧ e.k ≠ 'i') then ["[C01][C02] something other than drops happened after the end timestamp"] else []) ++
   (if r.hasInputs ∧ complete ∧ gens.length ≠ calls.length then ["[C01] generated inputs and benchmarked calls differ in number"] else []) ++
   (if r.hasInputs ∧ !sh.iZst ∧ complete ∧ calls.map (·.v) ≠ idsIn then ["[C01] an input was not passed to exactly one call, in generation order"] else []) ++
-  (if r.ic ∧ r.hasInputs ∧ complete ∧ (pre.filter (·.k = 'c')).length ≠ gens.length then ["[C01] an input was not shown exactly once to the input counter"] else []) ++
-  (if r.ic ∧ r.hasInputs ∧ !complete ∧ (pre.filter (·.k = 'c')).length > gens.length then ["[C01] an input was shown more than once to the input counter"] else []) ++
+  (if r.ic ∧ r.cia.isNone ∧ r.hasInputs ∧ complete ∧ (pre.filter (·.k = 'c')).length ≠ gens.length then ["[C01] an input was not shown exactly once to the input counter"] else []) ++
+  (if r.ic2 ∧ r.hasInputs ∧ complete ∧ (pre.filter (·.k = 'b')).length ≠ gens.length then ["[C01] an input was not shown exactly once to every input counter (the second counter, of another kind, was skipped or repeated)"] else []) ++
+  (if r.ic ∧ r.cia.isNone ∧ r.hasInputs ∧ !complete ∧ (pre.filter (·.k = 'c')).length > gens.length then ["[C01] an input was shown more than once to the input counter"] else []) ++
   (if complete then
      let wantO := if sh.oDrop then calls.length else 0
      let wantI := if sh.iDrop ∧ r.byRef then calls.length else 0
@@ -546,7 +573,7 @@ def handle (args : List String) (obs : String) : Option Reply := do
         (((if r.cold then stripCal 400 (traces.headD []) else traces.headD []).head?).map (·.v)).getD 0
       replaySpec r per initial (!panicky)) ++
     -- C05: per-input counter figures belong to the samples that supplied the times; mean over all samples
-    (if r.ic ∧ r.hasInputs ∧ !r.isTest ∧ !panicky ∧ !noRun then
+    (if r.ic ∧ r.cia.isNone ∧ r.hasInputs ∧ !r.isTest ∧ !panicky ∧ !noRun then
       let allS := (List.range T).flatMap fun t =>
         let evs := traces.getD t []
         let evs := if r.cold ∧ t = 0 then stripCal 400 evs else evs
@@ -573,9 +600,9 @@ def handle (args : List String) (obs : String) : Option Reply := do
       let okF := (recs.filter fun x => dOf x = mn).any fun x => cOf x = c3.getD 0 0
       let okS := (recs.filter fun x => dOf x = mx).any fun x => cOf x = c3.getD 1 0
       let mean := (recs.map cOf).foldl (· + ·) 0 / recs.length
-      (if !okF then ["[C05] the counter figure under fastest is not that of a sample with the smallest duration"] else []) ++
-      (if !okS then ["[C05] the counter figure under slowest is not that of a sample with the largest duration"] else []) ++
-      (if mean ≠ c3.getD 3 0 then ["[C05] the counter mean is not the mean over all recorded samples"] else [])
+      (if !okF then ["[C05][C19] the counter figure under fastest is not that of a sample with the smallest duration"] else []) ++
+      (if !okS then ["[C05][C19] the counter figure under slowest is not that of a sample with the largest duration"] else []) ++
+      (if mean ≠ c3.getD 3 0 then ["[C05][C19] the counter mean is not the mean over all recorded samples (counts of discarded rounds must not be in it)"] else [])
      else []) ++
     -- C19/C03: every reported sample used the final sample size; iterations = samples x that size
     (if !r.isTest ∧ !panicky ∧ !noRun ∧ implStats ≠ "hang" ∧ implStats ≠ "panic" then
@@ -624,7 +651,7 @@ def handle (args : List String) (obs : String) : Option Reply := do
       let total := (recs.map fun (c, j0) => allocsOf c j0).foldl (· + ·) 0
       let want := toString (SoftFloat.div (SoftFloat.ofNat total) (SoftFloat.ofNat iters))
       let got := ((statGroups implStats).getD 6 []).getD 3 ""
-      if got ≠ want then ["[C02][C05][C19] the mean allocation count is not that of the allocator operations the recorded samples' own calls performed between their timestamps"] else []
+      if got ≠ want then ["[C02][C05][C19][C10] the mean allocation count is not that of the allocator operations the recorded samples' own calls performed between their timestamps"] else []
      else []) ++
     -- C08: a panic of the benchmarked function or of the generator, once reached, ends the run with a
     -- panic on the calling thread (the lab reports `panic`), whichever round it happens in
@@ -637,6 +664,25 @@ def handle (args : List String) (obs : String) : Option Reply := do
         | none => false)
      if reached ∧ implStats ≠ "panic" ∧ implStats ≠ "hang" then
        ["[C08] a panic of the benchmarked function or input generator did not end the run with a panic on the calling thread"]
+     else []) ++
+    -- C01/C05: inputs counted by conversion (`count_inputs_as::<C>()`) are reported under the counter kind
+    -- that was asked for, and under no other
+    (match r.cia with
+     | some k =>
+       if r.hasInputs ∧ !r.isTest ∧ !panicky ∧ !noRun ∧ implStats ≠ "hang" ∧ implStats ≠ "panic" ∧ totalCalls > 0 then
+         let kinds := ((implStats.splitOn " ").filter fun w => w.startsWith "c" ∧ (w.drop 2).toString.startsWith ":").map fun w => (w.drop 1).toString.take 1 |>.toString
+         if kinds ≠ [toString k] then
+           ["[C01][C05] inputs counted as kind " ++ toString k ++ " (0 bytes, 1 chars, 2 cycles, 3 items) are reported under kind(s) " ++ toString kinds]
+         else []
+       else []
+     | none => []) ++
+    -- C05/C02: an operation that moved no bytes is an operation: with one same-size realloc per call the
+    -- mean grow count per iteration is exactly 1
+    (if r.zre ∧ !r.isTest ∧ !panicky ∧ !noRun ∧ implStats ≠ "hang" ∧ implStats ≠ "panic" ∧ totalCalls > 0 then
+       let got := ((statGroups implStats).getD 2 []).getD 3 ""
+       if got ≠ toString (SoftFloat.ofNat 1) then
+         ["[C05][C02] allocator operations that moved 0 bytes are missing from the allocation figures (mean grow count per iteration is not 1)"]
+       else []
      else []) ++
     -- C01: `_local` forms run on the calling thread only
     (if r.isLocal ∧ (traces.drop 1).any (!·.isEmpty) then ["[C01] a _local form ran on a pool thread"] else []) ++
